@@ -335,6 +335,56 @@ func genSpecs(r *rand.Rand, thorough bool) []*Spec {
 		s.K = 3 + r.Intn(18)
 		out = append(out, s)
 	}
+	// sequences on the oddly named scopes of fixtures/c07scopes.frugal: the
+	// same machinery, smaller sequences
+	nScopes, nShared := 20, 24
+	if thorough {
+		nScopes, nShared = 200, 360
+	}
+	for i := 0; i < nScopes; i++ {
+		s := &Spec{Idx: len(out), Seed: r.Int63(), User: genUser(r), Op: scopeOps[i%len(scopeOps)], QueueLen: 64}
+		if (i/len(scopeOps))%2 == 0 {
+			s.Broker, s.Factory, s.Workers = "nats", "builder", []int{1, 2, 4}[r.Intn(3)]
+		} else {
+			s.Broker, s.Factory, s.Workers = "stomp", "builder", 1
+		}
+		s.Proto = rig.Protocols[r.Intn(3)]
+		s.N = 20 + r.Intn(60)
+		if r.Intn(2) == 0 {
+			s.Kinds = []string{pick(r, malformedKinds)}
+		}
+		s.Foreign = r.Intn(2) == 0
+		s.K = 3 + r.Intn(6)
+		out = append(out, s)
+	}
+	// several live subscriptions on different topics through ONE scope provider
+	sharedCfg := []nf{{"builder", 1}, {"builder", 2}, {"builder", 4}, {"builder", 8}, {"builder", 1}, {"plain", 1}}
+	patterns := [][]string{{"Sent", "Sent"}, {"Sent", "Sent", "Num"}, {"Num", "Num", "Ping"}, {"Sent", "Num"}, {"UserEvents", "UserEvents", "IdMap"}, {"Ping", "Api", "Alerts"}, {"Num", "Sent", "Sent"}}
+	for i := 0; i < nShared; i++ {
+		s := &Spec{Idx: len(out), Seed: r.Int63(), Mode: "shared", QueueLen: 1 + r.Intn(64), Proto: rig.Protocols[r.Intn(3)]}
+		if i%4 == 3 {
+			s.Broker, s.Factory, s.Workers = "stomp", "builder", 1
+		} else {
+			c := sharedCfg[(i-i/4)%len(sharedCfg)]
+			s.Broker, s.Factory, s.Workers = "nats", c.f, c.w
+		}
+		a := genUser(r)
+		b := a
+		for b == a {
+			b = genUser(r)
+		}
+		users := map[string][]string{}
+		for _, op := range patterns[r.Intn(len(patterns))] {
+			// first use of an operation: user a, second: user b ("Sent a, Sent b, Num a")
+			u := []string{a, b}[len(users[op])%2]
+			users[op] = append(users[op], u)
+			s.Subs = append(s.Subs, SubSpec{Op: op, User: u})
+		}
+		s.Op, s.User = s.Subs[0].Op, s.Subs[0].User
+		s.N = 40 + r.Intn(160)
+		s.K = 6 + r.Intn(20)
+		out = append(out, s)
+	}
 	return out
 }
 
@@ -533,7 +583,7 @@ func (m *monitor) raceSample(specs []*Spec) {
 
 func parent() int {
 	run := ev.New("C07", ev.ArgTier(), "exploration")
-	run.Rule("one case = one sequence: (broker nats|stomp, protocol, subscriber factory and worker count, scope operation, prefix variable value, 50-2000 interleaved steps of valid publishes through the emitted publisher / malformed raw publishes of 0-3 kinds on the same subject / foreign-topic publishes, optional in-flight burst at Unsubscribe with a slow handler, k publishes after Unsubscribe returned); judged on the invocation logs of two emitted subscribers (A unsubscribed mid-way, B subscribed throughout); end of stream = sentinel seen by a raw tap subscriber, then by the emitted subscribers or their worker goroutines established dead / idle from a goroutine dump; distinct = (broker, protocol, factory, workers, operation, malformed-kind set, foreign/in-flight/slow/inject/prefix flags); the list is a pure function of (seed, tier)")
+	run.Rule("one case = one sequence: (broker nats|stomp, protocol, subscriber factory and worker count, scope operation, prefix variable value, 50-2000 interleaved steps of valid publishes through the emitted publisher / malformed raw publishes of 0-3 kinds on the same subject / foreign-topic publishes, optional in-flight burst at Unsubscribe with a slow handler, k publishes after Unsubscribe returned); judged on the invocation logs of two emitted subscribers (A unsubscribed mid-way, B subscribed throughout); plus sequences on the oddly named scopes of fixtures/c07scopes.frugal (user_events, Api, http_url_Id, alerts, Id_map) and shared-provider sequences (2-3 live subscriptions on different topics through ONE scope provider / subscriber transport factory, valid publishes interleaved on all topics, each log must hold exactly its own topic's messages, the first subscription unsubscribed mid-way); end of stream = sentinel seen by a raw tap subscriber, then by the emitted subscribers or their worker goroutines established dead / idle from a goroutine dump; distinct = (broker, protocol, factory, workers, operation, malformed-kind set, foreign/in-flight/slow/inject/prefix flags); the list is a pure function of (seed, tier)")
 	run.Assume("embedded nats-server v2.10.11 and nats.go deliver one connection's publishes on a subject in order to every subscriber, and nothing after UNSUB was processed by the client")
 	run.Assume("the rig's STOMP 1.2 broker (rig/stomp_broker.go, tested against the go-stomp client) fans out per destination in SEND order, exact destination match, no redelivery of un-acked messages, RECEIPT for every frame that asks")
 	run.Assume("'subscribed' starts when Subscribe has returned AND the broker has the subscription (go-stomp's Subscribe does not wait for the broker; the monitor waits on the broker's own table)")
